@@ -243,6 +243,9 @@ pub fn run_c16(ctx: &Ctx) -> i32 {
             return;
         };
         st.case(hash_str(&text), true);
+        if st.want_sample() && text.len() < 400 {
+            st.sample(json!({"text": text, "probed": "every (line, column) of the text at 3 filter levels"}));
+        }
         if text.contains("\r\n") {
             st.inc("documents_with_crlf");
         }
